@@ -439,25 +439,30 @@ func rangeIndex(first, last, code []byte) (index int, ok bool) {
 }
 
 func (f *File) LookupCID(code []byte) CID {
-	for _, s := range f.CIDSingles {
-		if bytes.Equal(s.Code, code) {
-			return s.Value
-		}
+	if cid, ok := f.lookupMapped(code); ok {
+		return cid
 	}
-
-	for _, r := range f.CIDRanges {
-		index, ok := rangeIndex(r.First, r.Last, code)
-		if !ok {
-			continue
-		}
-		return r.Value + CID(index)
-	}
-
-	if f.Parent != nil {
-		return f.Parent.LookupCID(code)
-	}
-
 	return f.LookupNotdefCID(code)
+}
+
+// lookupMapped returns the CID which the cidchar/cidrange entries of f or of
+// one of its ancestors assign to code.  Notdef entries are not consulted.
+func (f *File) lookupMapped(code []byte) (CID, bool) {
+	for g := f; g != nil; g = g.Parent {
+		for _, s := range g.CIDSingles {
+			if bytes.Equal(s.Code, code) {
+				return s.Value, true
+			}
+		}
+		for _, r := range g.CIDRanges {
+			index, ok := rangeIndex(r.First, r.Last, code)
+			if !ok {
+				continue
+			}
+			return r.Value + CID(index), true
+		}
+	}
+	return 0, false
 }
 
 func (f *File) LookupNotdefCID(code []byte) CID {
